@@ -68,14 +68,15 @@ class LayerSim(Sim):
               "bn_train_after_eval", "bn_eval_repeat", "bn_f64", "dropout_p0", "dropout_p1", "dropout_train", "dropout_eval", "dropout_stub_hit",
               "dropout_backward_same_mask", "dropout_two_pending_outputs_same_shape", "dropout_huge_sample", "dropout_independence", "mode_by_propagation", "fault_in_bn_training_forward", "fault_in_bn_eval_forward",
               "stats_overwritten", "bn_momentum_1", "bn_forward_untracked", "affine_updated_in_place", "affine_updated_by_optimizer",
-              "bn_training_forward_rejected_single_value", "layer_replaced_after_use", "dropout_input_with_exact_zeros", "dropout_backward_at_zero_inputs"]
+              "bn_training_forward_rejected_single_value", "layer_replaced_after_use", "dropout_input_with_exact_zeros", "dropout_backward_at_zero_inputs", "layer_deep_copied_and_both_used"]
     RULE = ("one run = 1-3 layers (BatchNorm1d/2d, Dropout; all constructor options) with a seeded history of mode switches (direct or by "
             "propagation), forwards, backwards, buffer overwrites and faults; distinct = layer configurations x mode/forward/backward sequence; "
             "non-trivial = at least two forwards on one layer with a mode switch or a buffer update in between")
     STUB = Sim.STUB + ["np.random.rand & friends replaced by a known stream in stub-mask forwards (real seeded generator otherwise)"]
 
     def knobs(self, rng, tier):
-        return {"max_events": rng.randint(6, 30), "n_layers": rng.randint(1, 3), "np_seed": rng.randrange(2 ** 31), "faulty": rng.random() < 0.25,
+        soak = rng.random() < 0.003       # one long-running program: thousands of forwards on the same few layers
+        return {"max_events": rng.randint(1300, 2200) if soak else rng.randint(6, 30), "soak": soak, "n_layers": rng.randint(1, 3), "np_seed": rng.randrange(2 ** 31), "faulty": rng.random() < 0.25,
                 "p_mode": rng.choice([0.15, 0.3])}
 
     def start(self, knobs):
@@ -102,6 +103,12 @@ class LayerSim(Sim):
         lid = rng.choice(sorted(st.L))
         L = st.L[lid]
         r = rng.random()
+        if rng.random() < 0.03 and len(st.L) < 6:
+            # a snapshot of a (trained) layer is taken with copy.deepcopy (best-model copy, teacher network); both go on being used
+            return {"k": "copy_layer", "lid": lid, "new": len(st.L)}
+        if kn.get("soak") and L["kind"] == "dropout" and rng.random() < 0.85:
+            x = small_values(rng, (8, 32), np.float32, -3, 3, avoid_zero=True)
+            return {"k": "forward", "lid": lid, "x": enc(x), "stub": False, "repeat": False, "rg": False}
         if r < kn["p_mode"]:
             return {"k": "mode", "lid": lid, "v": rng.choice(["train", "eval"]), "via": "holder" if (L["holder"] is not None and rng.random() < 0.6) else "layer"}
         if L["kind"] != "dropout":
@@ -125,6 +132,8 @@ class LayerSim(Sim):
                     shape = (1, C, 1, 1)
             dt = np.float64 if L["cfg"]["f64"] else np.float32
             x = small_values(rng, shape, dt, -3, 3) + dt(rng.choice([0, 0, 1.5, -4]))
+            if rng.random() < 0.12:
+                x[:, rng.randrange(C)] = dt(rng.choice([0.0, 1.5, -2.0]))       # a constant feature / dead unit: batch variance exactly 0
             ev = {"k": "forward", "lid": lid, "x": enc(x), "repeat": rng.random() < 0.3,
                   "ctx": "no_grad" if rng.random() < 0.3 else "none", "rg": rng.random() < 0.3}
             if kn["faulty"] and rng.random() < 0.15:
@@ -392,6 +401,17 @@ class LayerSim(Sim):
         st.notes["bn_single_value_training_forward_accepted"] += 1
         m.unknown = True
 
+    def _ev_copy_layer(self, st, ev):
+        import copy
+        L = st.L.get(ev["lid"])
+        if L is None or ev["new"] in st.L:
+            st.skipped += 1
+            return
+        obj2 = st.must("C13.deepcopy_raises", "copy.deepcopy(layer)", copy.deepcopy, L["obj"])
+        m2 = copy.deepcopy(L["model"])
+        st.L[ev["new"]] = {"obj": obj2, "kind": L["kind"], "cfg": dict(L["cfg"]), "model": m2, "holder": None, "mode": L["mode"], "switched": L["switched"], "n_fw": 0, "nest": "none"}
+        st.probes["layer_deep_copied_and_both_used"] += 1
+
     def _ev_replace_layer(self, st, ev):
         L = st.L.get(ev["lid"])
         if L is None or L["holder"] is None or L.get("nest") not in ("box", "box2"):
@@ -492,6 +512,15 @@ class LayerSim(Sim):
                 if prev is not None and prev == mask.tobytes():
                     st.fail("C13.dropout_independence", f"Dropout(p={p}) produced the same mask in two successive calls")
                 st.fw[(ev["lid"], xx.shape)] = mask.tobytes()
+        if stub is None and 0.05 <= p <= 0.95 and xx.size >= 128 and np.all(xnz):
+            # masks of different calls are independent draws: an exact repetition of an EARLIER mask of this run (any layer) is a
+            # 2^-128 event - unless the library replays a pool of random numbers
+            seen = st.__dict__.setdefault("masks_seen", {})
+            key = (xx.shape, mask.tobytes())
+            if key in seen:
+                st.fail("C13.dropout_independence", f"Dropout(p={p}): the mask of this call is identical to the mask of call #{seen[key]} of this run "
+                        f"({len(seen)} training forwards so far)", p=p)
+            seen[key] = len(seen)
         st.last.setdefault(ev["lid"], []).append((xt, out, keep_full))
         del st.last[ev["lid"]][:-3]
         if len(st.last[ev["lid"]]) >= 2 and st.last[ev["lid"]][-2][1].data.shape == out.data.shape:
